@@ -22,6 +22,7 @@ class Ctx:
         self.log = []           # (rule, file, detail)
         self.sources = {}       # module path -> repo file
         self.file_sha = {}
+        self.lints = []         # syntactic obligations checked by the extractor: dict(tags, label, message, function)
 
     def note(self, rule, where, detail=''):
         self.log.append({'rule': rule, 'file': where, 'detail': detail})
